@@ -62,6 +62,25 @@ func refEvalNum(n *ref.N) (ref.Dec, bool) {
 }
 
 func judgeLit(c LitCase) *eng.Fail {
+	// the literal as the whole input, and as the last token of the input
+	for _, bare := range []string{c.Lit, "1 + " + c.Lit} {
+		brt, bv := ref.Parse([]byte(bare))
+		bo := safeParse([]byte(bare))
+		if bo.panicked {
+			return eng.F("C12/panic", "parser panicked on %s: %s", bare, bo.panicMsg)
+		}
+		if bv == ref.Reject && bo.err == nil {
+			return eng.F("C12/accepts-malformed", "%q (literal at the end of the input) is malformed but was accepted as %s", bare, implTree(bo.src.Expression, nil))
+		}
+		if bv == ref.Accept {
+			if bo.err != nil {
+				return eng.F("C12/rejects-wellformed", "%q is well-formed (%s) but rejected: %v", bare, brt, bo.err)
+			}
+			if it := implTree(bo.src.Expression, nil); !sameTree(brt, it) {
+				return eng.F("C12/wrong-tree", "%q: reference tree %s, implementation tree %s", bare, brt, it)
+			}
+		}
+	}
 	src := "[" + c.Lit + "]"
 	rt, v := ref.Parse([]byte(src))
 	o := safeParse([]byte(src))
